@@ -5,7 +5,7 @@ from .common import both
 
 ID = 'C15'
 TARGETS = ['theories/Properties/C15.vo']
-THEOREMS = ['C15_first', 'C15_last', 'C15_unmarked_first', 'C15_nodup', 'C15_first_index']
+THEOREMS = core.theorems_of(ID)
 LEVEL = ('hand model of Frame::rollbacks/rollbacks_ (seen-table indexed by id - FIRST_INDEX, FIRST_INDEX regenerated from the source); '
          'proved for every id sequence with ids >= -123: no panic, one mark per row, marked iff an earlier (keep-first) / later (keep-last) '
          'row has the same id, all-false without repeats; model tied to Frame::rollbacks by differential runs (random + exhaustive short sequences)')
